@@ -409,6 +409,14 @@ def _utils_workload(U, gens, rng, rec):
         ("matrix_block", (W, list(range(p)), list(range(p)))), ("transitive_closure", (closed,)), ("imec", (D, full)), ("imec", (D, set())),
         ("split_data", (data, [1.0])), ("split_data", (data, [1.0], 0)), ("sampling_matrix", (np.zeros((p, p)),)), ("subsets", (set(),)),
     ]
+    # the same graphs as boolean, Fortran-ordered arrays (e.g. (W != 0).T of a C-ordered W): conversions that are no-ops for exactly
+    # this dtype / layout hand the routine the caller's own array
+    Db = np.asfortranarray(gmat.to_np(dag).astype(bool))
+    Pb = np.asfortranarray(P.astype(bool))
+    calls += [("is_dag", (Db,)), ("topological_ordering", (Db,)), ("dag_to_cpdag", (Db,)), ("transitive_closure", (Db,)), ("mec", (Db,)),
+              ("LGANM-ctor", (Db,)), ("ANM-ctor", (Db,)), ("pdag_to_dag", (Pb,)), ("maximally_orient", (Pb,)), ("all_dags", (Pb,)),
+              ("only_directed", (Pb,)), ("skeleton", (Pb,)), ("vstructures", (Pb,)), ("moral_graph", (Db,)), ("order_edges", (Db,)),
+              ("add_edges", (Db, 0)), ("remove_edges", (Db, 0)), ("induced_subgraph", (S, Pb))]
     results = {}
     import sempler as _s
     for (name, args) in calls:
